@@ -87,6 +87,11 @@ where
     // The buffer holds the previous fields: only what this call appends is this field.
     let start = dst.len();
 
+    // A multi-byte character can be split across two buffers of the underlying reader, so a field
+    // that spans more than one buffer is validated once all of its bytes have been read.
+    let mut pending = Vec::new();
+    let mut error = None;
+
     loop {
         let src = match reader.fill_buf() {
             Ok(src) => src,
@@ -106,12 +111,29 @@ where
             None => (src, src.len()),
         };
 
-        let s = str::from_utf8(buf).map_err(|e| io::Error::new(io::ErrorKind::InvalidData, e))?;
-        dst.push_str(s);
+        if pending.is_empty() && r#match.is_some() {
+            // The whole field is in this buffer.
+            match str::from_utf8(buf) {
+                Ok(s) => dst.push_str(s),
+                Err(e) => error = Some(e),
+            }
+        } else {
+            pending.extend_from_slice(buf);
+        }
 
         len += n;
 
         reader.consume(n);
+    }
+
+    if let Some(e) = error {
+        return Err(io::Error::new(io::ErrorKind::InvalidData, e));
+    }
+
+    if !pending.is_empty() {
+        let s =
+            str::from_utf8(&pending).map_err(|e| io::Error::new(io::ErrorKind::InvalidData, e))?;
+        dst.push_str(s);
     }
 
     let is_eol = matches!(r#match, Some(LINE_FEED));
@@ -127,6 +149,37 @@ where
 mod tests {
     use super::*;
     use crate::record::fields::Bounds;
+
+    #[test]
+    fn test_read_record_with_a_character_split_across_buffers() -> io::Result<()> {
+        use std::io::BufReader;
+
+        let data = "sq0\t1\trs\u{e9}\tA\t.\t.\tPASS\tNOTE=\u{20ac}\n";
+
+        for capacity in 1..=data.len() {
+            let mut reader = BufReader::with_capacity(capacity, data.as_bytes());
+            let mut record = Record::default();
+            read_record(&mut reader, &mut record)?;
+            assert_eq!(
+                record.fields().buf,
+                "sq01rs\u{e9}A..PASSNOTE=\u{20ac}",
+                "capacity = {capacity}"
+            );
+        }
+
+        let data = b"sq0\t1\trs\xe9\tA\t.\t.\tPASS\t.\n";
+
+        for capacity in 1..=data.len() {
+            let mut reader = BufReader::with_capacity(capacity, &data[..]);
+            let mut record = Record::default();
+            assert!(matches!(
+                read_record(&mut reader, &mut record),
+                Err(e) if e.kind() == io::ErrorKind::InvalidData
+            ));
+        }
+
+        Ok(())
+    }
 
     #[test]
     fn test_read_record() -> io::Result<()> {
